@@ -90,6 +90,13 @@ Definition api (ask : string -> list val -> val) : list api_entry := [
       Ok (VL [VBool (Objects.smem (str_of name) (map Objects.name_of Gen.Objects.cached));
               VL (map (fun f => VB (map (fun c => N_of_ascii c) (list_ascii_of_string f))) (Objects.gen_reads (str_of name)))])
       | _ => bad_call end);
+  (* the field tables of Gen/Objects.v the history check needs: [lazily initialised fields (the memoisation caches
+     a process-state snapshot may see filling); fields written after construction; every declared field] *)
+  ("object_fields", fun a => match a with [] =>
+      let enc := fun f => VB (map (fun c => N_of_ascii c) (list_ascii_of_string f)) in
+      Ok (VL [VL (map enc Gen.Objects.lazy_fields); VL (map enc Gen.Objects.mutable_fields);
+              VL (map enc Gen.Objects.declared_fields)])
+      | _ => bad_call end);
   (* [hierarchy id; coin enum member name; ops] -> [[code, depth, public-only, index] per step; origin; path; level] *)
   ("bip44_observe", fun a => match a with [VN h; VB name; VL ops] =>
       match find_coin h name, dec_ops ops with
